@@ -43,16 +43,20 @@ def rsa_pool():
 
 
 class PoolKeyGenerator(object):
-    """Stand-in for client.KeyGenerator: 2048-bit keys from the committed pool (DESIGN §2.5)."""
-    def __init__(self, chooser, name):
-        self.ch = chooser
+    """Stand-in for client.KeyGenerator: 2048-bit keys from the committed pool (DESIGN §2.5).
+    Keys are handed out without replacement within a run (a seeded permutation of the pool shared by
+    all clients of the grid), so two files never share a key pair."""
+    def __init__(self, grid, name):
+        self.grid = grid
         self.name = name
-        self.n = 0
 
     def next_keypair(self):
         pool = rsa_pool()
-        i = self.ch.randrange("urandom", ("rsa", self.name, self.n), len(pool))
-        self.n += 1
+        g = self.grid
+        if g._key_order is None:
+            g._key_order = g.ch.shuffle("urandom", "rsa-pool-order", range(len(pool)))
+        i = g._key_order[g._keys_issued % len(pool)]
+        g._keys_issued += 1
         priv, pub = rsa.create_signing_keypair_from_string(pool[i])
         return pub, priv
 
@@ -152,6 +156,8 @@ class Grid(object):
         self._orig_urandom = os.urandom
         self.urandom_n = 0
         self.urandom_log = []
+        self._key_order = None
+        self._keys_issued = 0
         os.urandom = self._urandom
         import random
         random.seed(self.ch.u64("urandom", "python-random"))     # BackoffAgent jitter etc.
@@ -204,7 +210,7 @@ class Grid(object):
                       introducer_clients=[], storage_farm_broker=sb)
         c.sim_name = name
         c.sim_dir = cdir
-        c._key_generator = PoolKeyGenerator(self.ch, name)
+        c._key_generator = PoolKeyGenerator(self, name)
         c.nodemaker.key_generator = c._key_generator
         # the CPU usage monitor polls every 60 s for ever; it would mask quiescence (DESIGN §2.1)
         c.stats_provider.cpu_monitor.disownServiceParent()
